@@ -180,6 +180,40 @@ def describe_classes():
     return rows
 
 
+# ------------------------------------------------------------------------------------------ IPv8.unload_overlay
+def _norm(src):
+    return ast.unparse(ast.parse(src).body[0])
+
+
+SERVICE = {
+    _norm("self.overlays = [overlay for overlay in self.overlays if overlay != instance]"): "SFilterOverlays",
+    _norm("self.strategies = [(strategy, target_peers) for (strategy, target_peers) in self.strategies\n"
+          "                   if strategy.overlay != instance]"): "SFilterStrategies",
+    _norm("def f():\n    return maybe_coroutine(instance.unload)").split("\n", 1)[1].strip(): "SUnload",
+}
+
+
+def service_unload_steps():
+    """steps of IPv8.unload_overlay: the body must be `with self.overlay_lock:` around recognised statements"""
+    import ipv8_service
+    body = _method_body(ipv8_service.IPv8, "unload_overlay")
+    if body is None:
+        raise Unsupported("IPv8.unload_overlay not found")
+    if not (len(body) == 1 and isinstance(body[0], ast.With) and [ast.unparse(i) for i in body[0].items] == ["self.overlay_lock"]):
+        raise Unsupported("IPv8.unload_overlay is not a single `with self.overlay_lock:` block")
+    steps = []
+    for st in body[0].body:
+        txt = ast.unparse(st)
+        if txt not in SERVICE:
+            raise Unsupported("IPv8.unload_overlay: statement not recognised: %r" % txt)
+        steps.append(SERVICE[txt])
+    # the ticker must walk over the list unload_overlay rebuilds
+    tick = ast.unparse(ast.Module(body=_method_body(ipv8_service.IPv8, "on_tick"), type_ignores=[]))
+    if "for strategy, target_peers in self.strategies:" not in tick:
+        raise Unsupported("IPv8.on_tick does not iterate over self.strategies in the recognised form")
+    return steps
+
+
 def b(x):
     return "true" if x else "false"
 
@@ -187,6 +221,7 @@ def b(x):
 def generate():
     api = wrapper_api()
     rows = describe_classes()
+    ssteps = service_unload_steps()
     t1 = ["(* GENERATED by tools/tr/tr_lifecycle.py from ipv8/messaging/anonymization/endpoint.py and",
           "   ipv8/messaging/interfaces/statistics_endpoint.py - do not edit *)",
           "From Coq Require Import Bool.", "From IPV8V Require Import model.M11_listeners.", "",
@@ -194,11 +229,13 @@ def generate():
     for key in ("tunnel", "stats"):
         t1.append("Definition %s_api : api := mkApi %s %s %s %s." % ((key,) + tuple(b(x) for x in api[key])))
     t2 = ["(* GENERATED by tools/tr/tr_lifecycle.py from the unload() methods of the shipped overlay classes - do not edit *)",
-          "From Coq Require Import List Bool String.", "From IPV8V Require Import model.M11_lifecycle.",
+          "From Coq Require Import List Bool String.", "From IPV8V Require Import model.M11_lifecycle model.M11_service.",
           "Import ListNotations.", "Local Open Scope string_scope.", "",
           "(* class, (has request cache, installs a crypto endpoint listener, creates exit sockets), steps of unload() *)",
           "Definition unload_table : list (string * cls * list ustep) :=",
-          "  [" + ";\n   ".join('("%s", mkCls %s %s %s, [%s])' % (n, b(c), b(k), b(s), "; ".join(st)) for n, c, k, s, st in rows) + "]."]
+          "  [" + ";\n   ".join('("%s", mkCls %s %s %s, [%s])' % (n, b(c), b(k), b(s), "; ".join(st)) for n, c, k, s, st in rows) + "].",
+          "", "(* IPv8.unload_overlay (ipv8_service.py), statement by statement *)",
+          "Definition service_unload_steps : list sstep := [%s]." % "; ".join(ssteps)]
     return "\n".join(t1) + "\n", "\n".join(t2) + "\n", api, rows
 
 
